@@ -61,6 +61,13 @@ def cases(tier, seed):
                 yield dict(kind="cvs", ds=0, est=est, w=True, cv=cv, scoring=SCORERS.index(sc), mode="client")
                 yield dict(kind="cvs", ds=0, est=est, w=True, cv=cv, scoring=SCORERS.index(sc), mode="delayed",
                            bound=(2 if tier == "quick" else None))
+    # environment event "the caller reconfigures the estimator it passed in" between the call that builds the delayed graph (or
+    # submits to the client) and the moment the results are computed: the scores are those of the estimator AS PASSED, which is what
+    # a serial call made at the same moment returns (seed C12-7: the per-split clone moved into the task)
+    for est in EST + ["CH"]:
+        for cv in ("kfold2", "kfold3"):
+            yield dict(kind="cvs", ds=0, est=est, w=True, cv=cv, scoring=0, mode="client", reconf=True)
+            yield dict(kind="cvs", ds=0, est=est, w=True, cv=cv, scoring=0, mode="delayed", bound=1, reconf=True)
     # line-granular interleavings (every executed line of verde's fit_score / score_estimator / score is a scheduling point,
     # preemption bound 1): finds races between a task's steps without hand-placed points (seed C12-r2_1: a scorer/dummy-estimator
     # pair shared between tasks through a cache)
@@ -71,9 +78,10 @@ def cases(tier, seed):
         yield dict(kind="cvs", ds=0, est=est, w=True, cv=cv, scoring=SCORERS.index(sc), mode="delayed", bound=1, lines=True)
     # the same, with the estimator's own numerical code traced as well (fit / predict / jacobian / least_squares of Trend in quick;
     # of the Spline and KNeighbors in thorough): races on module-level scratch state inside a gridder
-    deep = [("T1", "kfold2")] + ([("S", "kfold2"), ("K2", "kfold2"), ("T1", "kfold3")] if tier == "thorough" else [])
+    # EVERY executed line of EVERY verde source file is a scheduling point ("all"): shared module-level state anywhere in the library
+    deep = [("T1", "kfold2"), ("K2", "kfold2")] + ([("S", "kfold2"), ("V", "kfold2"), ("CH", "kfold2"), ("T1", "kfold3")] if tier == "thorough" else [])
     for est, cv in deep:
-        yield dict(kind="cvs", ds=1, est=est, w=True, cv=cv, scoring=0, mode="delayed", bound=1, lines="deep")
+        yield dict(kind="cvs", ds=1, est=est, w=True, cv=cv, scoring=0, mode="delayed", bound=1, lines="all")
     for ds in (0, 1):
         for mode in ("plain", "spacing", "shape"):
             for sd in range(6):
@@ -159,7 +167,25 @@ def make_est(key, instrumented=False):
             return C(vd.KNeighbors)(k=2)
         if key == "V":
             return C(vd.Vector)([vd.Trend(1), vd.Trend(0)])
+        if key == "CH":
+            return C(vd.Chain)([("trend", vd.Trend(1)), ("spline", vd.Spline(damping=1e-2))])
     raise ValueError(key)
+
+
+def _reconfigure(est, key):
+    """The caller changes the parameters of the estimator it handed over (other degree / damping / k / first step or component)."""
+    if key in ("T0", "T1"):
+        est.set_params(degree=est.degree + 2)
+    elif key == "S":
+        est.set_params(damping=1e3)
+    elif key == "K2":
+        est.set_params(k=1)
+    elif key == "V":
+        est.components[0].set_params(degree=3)
+    elif key == "CH":
+        est.steps[0][1].set_params(degree=3)
+    else:
+        raise ValueError(key)
 
 
 def make_cv(key):
@@ -388,6 +414,8 @@ def run(case, rec):
                 got = call(rec, vd.cross_val_score, est, (e, n), data, weights=wts, cv=make_cv(cvkey), scoring=make_scoring(si), client=client)
                 if raised(got):
                     return rec.check(False, "cross_val_score(client) raised %r" % (got,))
+                if case.get("reconf"):
+                    _reconfigure(est, key)
                 vals = [f.result() for f in got]
                 check_scores(vals, "client completion order %s" % (order,))
                 rec.check(not _fitted_attrs(est), "estimator passed in was fitted (client)")
@@ -400,7 +428,9 @@ def run(case, rec):
 
         def run_sched(prefix):
             est = make_est(key, instrumented=True)
-            if case.get("lines") == "deep":
+            if case.get("lines") == "all":
+                b = S.Baton(prefix, trace_files=("verde/",))
+            elif case.get("lines") == "deep":
                 b = S.Baton(prefix, trace_files=("verde/model_selection.py", "verde/base/utils.py", "verde/base/base_classes.py", "verde/trend.py",
                                                  "verde/spline.py", "verde/neighbors.py", "verde/base/least_squares.py"),
                             trace_funcs=("fit_score", "score_estimator", "score", "predict", "fit", "jacobian", "least_squares", "predict_numpy",
@@ -411,6 +441,8 @@ def run(case, rec):
             else:
                 b = S.Baton(prefix)
             scores = vd.cross_val_score(est, (e, n), data, weights=wts, cv=make_cv(cvkey), scoring=make_scoring(si), delayed=True)
+            if case.get("reconf"):
+                _reconfigure(est, key)
             out = dask.compute(*scores, scheduler=b)
             return (tuple(float(x) for x in out), _fitted_attrs(est)), b
 
